@@ -14,22 +14,22 @@ LEVEL_TEXT = ("Repository-specific static rules over the type-checked SSA form o
 # id -> (decides, note, technique); ids missing here are listed under not_applicable with NA[id]
 TRUST = "Trusted: go/types, go/ssa (x/tools v0.29.0), the Go memory model and the documented semantics of the standard library; lock, field and channel identity is by (type, field), instances are not distinguished; hand-confirmed instance minimums and idiom tables in /verif/checker/rules_*.go. A re-architecture of the anchored mechanism that uses an idiom the rule does not know is reported as undecided (the check fails rather than pass on code it does not understand). "
 CLAIMS = {
- "C02": ("reader hand-off channels are buffered at every make site; waiter registered before the write; the wait prefers a delivered reply over the close notification; reader re-arms the read deadline; no exit between write and wait; single waiter slot cleared only by the reader; the frame reader reads only through io.ReadFull; the waiter is registered under the widened 16-bit wire id the reader looks up. Not decided: timing.",
+ "C02": ("reader hand-off channels are buffered at every make site; waiter registered before the write; the wait prefers a delivered reply over the close notification; reader re-arms the read deadline; no exit between write and wait; single waiter slot cleared only by the reader; the frame reader reads only through io.ReadFull; the waiter is registered under the widened 16-bit wire id the reader looks up; every exchange-path function passes on and waits on its own context. Not decided: timing.",
          TRUST + "Go channel semantics (a send on a channel with free buffer space never blocks).",
          "SSA value-provenance of channel make sites + dominance / must-pass-through on the CFG"),
  "C04": ("the cache key builder is injective in (AD, CD, DO, 16 type bits, 16 class bits, name): every input bit is the sole dependency of a header bit, the name is copied verbatim, the buffer is fresh and private; non-empty key only for QR=0/QUERY/one question; one key value for lookup and stores. This is the whole property except the semantics of miekg/dns field accessors.",
          TRUST + "miekg/dns Msg.IsEdns0 / OPT.Do as documented; Go string map-key equality.",
          "bit-level dependency abstract interpretation of the key builder (SSA) + guard and provenance rules"),
- "C09": ("lockset on counters, waiter table, flags and connection sets; admission test inside the critical section; exactly-once release and wait-group accounting on every path of both ReservedExchanger implementations; no double counting of in-flight queries; reserved exchangers consumed exactly once by callers; dial only when nothing admitted; dialing limit <= connection limit; a reservation is released only by defer or after its exchange returned. Not decided: run-time maxima over interleavings.",
+ "C09": ("lockset on counters, waiter table, flags and connection sets; admission test inside the critical section; exactly-once release and wait-group accounting on every path of both ReservedExchanger implementations; no double counting of in-flight queries; reserved exchangers consumed exactly once by callers; dial only when nothing admitted; dialing limit <= connection limit; a reservation is released only by defer or after its exchange returned; connections change hands only by rendezvous. Not decided: run-time maxima over interleavings.",
          TRUST + "sync.Mutex / sync.WaitGroup semantics.",
          "must-lockset dataflow + exhaustive CFG path enumeration (event counting, typestate of reserved exchangers)"),
- "C11": ("lockset on every shard-map access (R for reads, W for writes); bounded insert only via certified edges inside one critical section; per-shard maximum >= 1 for every configured size (interval analysis of the size clamp); expiry guards in Get and the sweep; the cache uses only the locked, bounded map API. Not decided: linearizability of histories.",
+ "C11": ("lockset on every shard-map access (R for reads, W for writes); bounded insert only via certified edges inside one critical section; per-shard maximum >= 1 for every configured size (interval analysis of the size clamp); expiry guards in Get and the sweep; the cache uses only the locked, bounded map API; the non-evicting testAndSet is only asked to set keys present under the lock. Not decided: linearizability of histories.",
          TRUST + "sync.RWMutex semantics.",
          "must-lockset dataflow + edge-certified reachability + path-sensitive interval analysis"),
  "C18": ("scheme->default-port table by resolved constants; provenance of every dialled/resolved address from parseDialAddr(trimmed URL host, dial_addr, default); SNI default; bracket trimmer strips exactly what it tested; helper schemes; parse errors propagate; the bootstrap resolver is this upstream's own (own allocation, host/port from the parameters, address joined with its own port). Not decided: string semantics of net/url and net.SplitHostPort over all inputs.",
          TRUST + "net/url, net.SplitHostPort, net.JoinHostPort as documented.",
          "AST table check with type-resolved constants + SSA value-provenance + guard analysis"),
- "C19": ("writer/reader field agreement with per-field sources; item rebuilt from matching getters; block length within [0,limit] at the allocation (interval analysis); every read/decode error leads to an error return, only io.EOF on a block header tolerated; header verified first; expired entries skipped on both sides; only rcodes that pack without OPT are admitted. Not decided: round-trip equality of arbitrary messages, robustness of gzip/protobuf/miekg to arbitrary bytes (trusted).",
+ "C19": ("writer/reader field agreement with per-field sources; item rebuilt from matching getters; block length within [0,limit] at the allocation (interval analysis); every read/decode error leads to an error return, only io.EOF on a block header tolerated; header verified first; expired entries skipped on both sides; only rcodes that pack without OPT are admitted; every decoded entry reaches the store. Not decided: round-trip equality of arbitrary messages, robustness of gzip/protobuf/miekg to arbitrary bytes (trusted).",
          TRUST + "protobuf getters return their field; gzip/protobuf/dns.Msg.Unpack report malformed input as errors.",
          "writer/reader table agreement over SSA stores and getter calls + interval analysis + error-flow rule"),
  "C20": ("own answer queued before the sibling-waking close, 'done' only with an answer; gate select before the secondary's Exec; hold select before a standby answer; <=1 send per path and capacity >= workers; caller loop bound / nil skipping / ctx / failure last; workers on copies taken before go with the caller's deadline. Not decided: timing relative to the threshold.",
@@ -44,34 +44,34 @@ CLAIMS = {
  "C06": ("errors returned unchanged; walkers/nodes immutable after construction; continuation = (index+1, same chain, same jump-back); accept/reject/return/goto/jump call-graph facts; negation and its parsing; short-circuit to the next rule; end-of-chain jump-back. Not decided: equivalence with a reference interpreter over all programs.",
          TRUST + "plugins honour the Executable contracts.",
          "who-writes index (immutability) + SSA structure rules on the interpreter loop and built-ins"),
- "C07": ("ctx case in every blocking select; close-notification / dial-finished wake-ups; I/O error => close on every path; close-once with error stored first; transport Close (flag, all conns, dials, entry checks, late dials); goroutine termination table (incl. unbuffered hand-offs that must be outlived by their receiver); bounded deadlines incl. the reader not overriding the waiting-reply deadline; dialled-connection typestate; wait-group accounting. Not decided: actual timing.",
+ "C07": ("ctx case in every blocking select; close-notification / dial-finished wake-ups; I/O error => close on every path; close-once with error stored first; transport Close (flag, all conns, dials, entry checks, late dials); goroutine termination table (incl. unbuffered hand-offs that must be outlived by their receiver); bounded deadlines incl. the reader not overriding the waiting-reply deadline; dialled-connection typestate; wait-group accounting; lock order; dialFinished closed at most once (site table); read errors end the read helpers. Not decided: actual timing.",
          TRUST + "net.Conn deadlines interrupt blocked I/O; sync.Once.",
          "select/channel structure analysis + must-pass-through on the CFG + path-enumerating typestate"),
- "C08": ("retry re-entered exactly under {failed, not new, counter below bound[, ctx live]} with no narrowing condition; <= 4 attempts; is-new flag coincides with the dial; dead connections removed when detected / on close; every read/write error closes the connection on every path (all connection kinds). Not decided: whether the retry succeeds.",
+ "C08": ("retry re-entered exactly under {failed, not new, counter below bound[, ctx live]} with no narrowing condition; <= 4 attempts; is-new flag coincides with the dial; dead connections removed when detected / on close; every read/write error closes the connection on every path (all connection kinds); pooled buffers are not re-sent or released twice across the retry (inter-procedural release). Not decided: whether the retry succeeds.",
          TRUST,
          "guard-set analysis of the loop back edge + phi case expansion"),
  "C10": ("stored message only Copy()'d / Pack()'d; only fresh messages stored; deep-copy helper uses dns.Copy into fresh slices of a new message; hit gets the query id before the next chain step; lookup returns copies; refresh on a context copy taken before the goroutine. Isolation then holds by construction.",
          TRUST + "dns.Msg.Copy / dns.Copy are deep copies.",
          "use-def discipline on the stored-message field + alias (source-derived slice) propagation in the copy helper"),
- "C17": ("TCP exchange exactly under msgTruncated(UDP reply) with its results returned unchanged; non-truncated reply returned as is with no TCP call reachable; msgTruncated == bit 1 of byte 2; same dial address value; same query; received reply bytes are never written except the id restoration. Whole property up to the DNS header layout.",
+ "C17": ("TCP exchange exactly under msgTruncated(UDP reply) with its results returned unchanged; non-truncated reply returned as is with no TCP call reachable; msgTruncated == bit 1 of byte 2; same dial address value; same query; received reply bytes are never written except the id restoration; the TCP transport's idle-set discipline (a connection re-enters the idle set only after its reply was read). Whole property up to the DNS header layout.",
          TRUST,
          "CFG guard/return-shape rules + expression shape of the TC test"),
- "C03": ("malformed queries rejected first with no reply; packed message = plugins' response or SetReply(query)+SERVFAIL/REFUSED; RA forced; OPT re-attached before UDP truncation, truncation iff UDP with a size proven in [512,65535], pack last; provenance of every SetResponse argument from the query it answers; query question/id only modified on a copy or under a deferred restore; redirect reply fix-up; cache key injective in the question. Not decided: arbitrary plugin compositions, miekg Truncate/Pack semantics, one reply per request at socket level.",
+ "C03": ("malformed queries rejected first with no reply; packed message = plugins' response or SetReply(query)+SERVFAIL/REFUSED; RA forced; OPT re-attached before UDP truncation, truncation iff UDP with a size proven in [512,65535], pack last; provenance of every SetResponse argument from the query it answers; query question/id only modified on a copy or under a deferred restore; redirect reply fix-up; cache key injective in the question; context copies are deep; after validation every return hands back the pack result; the packer returns a pool buffer of its own holding the message and no pooled buffer is used after release (module-wide). Not decided: arbitrary plugin compositions, miekg Truncate/Pack semantics, one reply per request at socket level.",
          TRUST + "dns.Msg.SetReply / Truncate as documented; upstreams echo the question.",
          "guard/dominance rules on the entry handler + inter-procedural value provenance (through channels, fields, calls) + interval analysis"),
- "C12": ("ONLY structural necessary conditions: same normalisation on rule and query side, regexps compiled as written, patterns passed on unchanged, shared label scanner with '.' separator, type dispatch table, lookup precedence, default rule types, deepest-value rule in the trie walk, text-loader line pipeline (recognised clean-up steps, parser runs for every non-empty line, errors reported). NOT decided: the 'if and only if' over all rule sets and names (trie walk, scanner arithmetic, substring/regexp semantics) — input-quantified algorithmics that no static argument in reach settles.",
+ "C12": ("ONLY structural necessary conditions: same normalisation on rule and query side, regexps compiled as written, patterns passed on unchanged, shared label scanner with '.' separator, type dispatch table, lookup precedence, default rule types, deepest-value rule in the trie walk, text-loader line pipeline (recognised clean-up steps, parser runs for every non-empty line, errors reported), the label trie only grows (who-writes table), keyword/regexp lookups consult every rule (no pre-filter). NOT decided: the 'if and only if' over all rule sets and names (trie walk, scanner arithmetic, substring/regexp semantics) — input-quantified algorithmics that no static argument in reach settles.",
          TRUST + "strings / regexp as documented.",
          "agreement rules between sibling Add/Match implementations + dispatch/precedence tables from SSA"),
  "C13": ("ONLY structural necessary conditions: sort-after-last-load typestate of every created list, who-writes of the slice and the sorted flag (true only after sort+merge replaced the slice), same to6 mapping on both sides, +96 bits exactly for IPv4, masked prefixes, Contains refusing unsorted lists, full-length prefixes for bare addresses, text-loader line pipeline (leading blanks stripped before any cut at a blank, '#' comments, parser runs for every non-empty line, errors reported). NOT decided: the 'if and only if' (comparator, merge of covered prefixes, binary search) over all prefix multisets and addresses.",
          TRUST + "net/netip as documented.",
          "path-enumerating typestate + who-writes index + expression-shape rules"),
- "C14": ("helper count in [1,3] by interval analysis; private per-iteration query copy released by its helper, shared packed query not captured; helper send under select with done (closed by defer) and 5 s timeout context; collecting select watches ctx; acceptance rule = {last, NOERROR, NXDOMAIN}, failures skipped, same count in both loops; cyclic selection from a random start; tag handling; raw reply bytes indexed only under a covering length guard. Not decided: arrival order, timing.",
+ "C14": ("helper count in [1,3] by interval analysis; private per-iteration query copy released by its helper, shared packed query not captured; helper send under select with done (closed by defer) and 5 s timeout context; collecting select watches ctx; acceptance rule = {last, NOERROR, NXDOMAIN}, failures skipped, same count in both loops; cyclic selection from a random start; tag handling; raw reply bytes indexed only under a covering length guard; every iteration of the spawning loop starts a helper; the packed query is a pool buffer of its own. Not decided: arrival order, timing.",
          TRUST + "math/rand/v2.IntN range.",
          "interval analysis + closure-capture/provenance rules + CFG predecessor-edge analysis of the acceptance block"),
- "C15": ("OPT constructed only by the context helper; option lists written only by the two forwarding plugins; client OPT swapped in place and kept only as clientOpt; resp/upstreamOpt written only by SetResponse (popOpt removes exactly the OPT it found, searching the whole section) and context copy; response OPT iff client OPT, DO mirrored, deep-copied with the context, appended by the handler only when present; TTL loops skip OPT; cache copy drops OPT. Not decided: messages with several OPT records.",
+ "C15": ("OPT constructed only by the context helper; option lists written only by the two forwarding plugins; client OPT swapped in place and kept only as clientOpt; resp/upstreamOpt written only by SetResponse (popOpt removes exactly the OPT it found, searching the whole section) and context copy; response OPT iff client OPT, DO mirrored, deep-copied with the context, appended by the handler only when present and at the single pack site; TTL loops skip OPT; cache copy drops OPT; a context copy has its own query message and OPT. Not decided: messages with several OPT records.",
          TRUST + "miekg/dns OPT accessors.",
          "who-writes / who-constructs index over the whole module + guard rules"),
- "C16": ("every stream Write sends one buffer from a framing constructor (servers: handler invoked with the length-prefixing packer and returning only its result; no vectored/split writes); constructors check len<=65535 first, header uint16(len) at 0 of a len+2 buffer, body at [2:] of the same buffer; reader uses io.ReadFull twice, rejects len<=12 before allocating, exact-size buffer, release on error; all stream readers go through it; every reply source guarantees 12 bytes and every constant-offset access to raw message bytes is below the length implied by guards, construction or origin. Trusted: io.ReadFull under chunking, write atomicity of one Write call.",
+ "C16": ("every stream Write sends one buffer from a framing constructor (servers: handler invoked with the length-prefixing packer and returning only its result; no vectored/split writes); constructors check len<=65535 first, header uint16(len) at 0 of a len+2 buffer, body at [2:] of the same buffer; reader uses io.ReadFull twice, rejects len<=12 before allocating, exact-size buffer, release on error; all stream readers go through it; every reply source guarantees 12 bytes and every constant-offset access to raw message bytes is below the length implied by guards, construction or origin; no write deadline on a shared server connection unless failed writes close it. Trusted: io.ReadFull under chunking, write atomicity of one Write call.",
          TRUST + "io.ReadFull semantics; one Write call is not interleaved with others.",
          "value provenance of written buffers + expression-shape rules on constructors and reader"),
 }
